@@ -59,6 +59,27 @@ def run(chk):
         again = [k for k, _ in fam]
         if again != names:
             chk.violation("iteration-order", dict(family=fname, what="a second pass over the family does not yield every name once, in order", count=len(again)))
+        # two iterations over the same family alive at once (nested loops, zip, an iterator kept while another runs) are independent
+        small = names[: min(len(names), 6)]
+        pairs = []
+        for i_, (k1, _) in enumerate(fam):
+            if i_ >= len(small):
+                break
+            for j_, (k2, _) in enumerate(fam):
+                if j_ >= len(small):
+                    break
+                pairs.append((k1, k2))
+        if pairs != [(x, y) for x in small for y in small]:
+            chk.violation("iteration-order", dict(family=fname, what="nested loops over the same family do not yield every pair of names", got=pairs[:8], count=len(pairs)))
+        zipped = [(x[0], y[0]) for x, y in zip(fam, fam)]
+        if zipped != [(x, x) for x in names]:
+            chk.violation("iteration-order", dict(family=fname, what="zip(family, family) does not pair every name with itself", got=zipped[:5], count=len(zipped)))
+        kept = iter(fam)
+        k_first = next(kept)[0]
+        _ = [k for k, _ in fam]
+        rest = [k for k, _ in kept]
+        if [k_first] + rest != names:
+            chk.violation("iteration-order", dict(family=fname, what="an iterator kept while another pass runs does not continue where it was", got=([k_first] + rest)[:5], count=1 + len(rest)))
         for pos, (key, sh_it) in enumerate(it):
             st, sh = C.excname(fam.get_shape, key)
             chk.case([fname, key], True)
